@@ -388,6 +388,36 @@ def _grow_covers_request(f, move_node, old, sc):
 
 # ---- R: forwarded pack consumed once -------------------------------------------------
 
+def check_forward_once_fns(ctx, unit, uqs, rule="R.forward-once"):
+    """The same for free function templates (construct_n constructs n elements from one argument pack)."""
+    n_inst = 0
+    for f in unit.functions:
+        if f.uq not in uqs:
+            continue
+        pids = {p["d"] for p in f.params()}
+        sites = []
+        for n in f.events():
+            if n.kind == "CallExpr" and n.callee and n.callee["uq"] in ("std::forward", "std::move") and n.args:
+                a = n.args[0].strip()
+                if a.kind == "DeclRefExpr" and a.d["d"] in pids:
+                    if n.callee["uq"] == "std::forward":
+                        ta = n.callee.get("targs", "")
+                        if ta.rstrip(">").rstrip().endswith("&") and not ta.rstrip(">").rstrip().endswith("&&"):
+                            continue
+                    sites.append(n)
+        if not any(p["t"].rstrip().endswith("&&") for p in f.params()):
+            continue            # (only instantiations that receive an rvalue can move from it)
+        n_inst += 1
+        cyc = in_cycle_blocks(f)
+        pos = f.positions()
+        bad = [n for n in sites if pos[n.id][0] in cyc]
+        ctx.inst(rule, "%s<%s>" % (f.uq, f.get("targs", "").strip("<>")), not bad, (bad[0].loc if bad else f.loc),
+                 ("%s of parameter inside a loop at %s: the second and later iterations receive a moved-from argument"
+                  % (bad[0].callee["uq"], bad[0].loc)) if bad else "%d rvalue-forwarding sites, none in a loop" % len(sites), f)
+    if n_inst == 0:
+        raise AnalysisBroken("anchor vanished: an instantiation of %s with an rvalue argument" % sorted(uqs))
+
+
 def check_forward_once(ctx, unit, classes, rule="R.forward-once"):
     ctx.rule(rule, "an argument forwarded as an rvalue (std::forward<T> with non-reference T, std::move of a parameter) is "
              "consumed at most once per activation: never inside a loop body", 2)
@@ -1230,6 +1260,38 @@ class StorageExchange:
         return out
 
 
+def check_move_assign_releases(ctx, unit, classes, rule="O.move-assign-releases"):
+    """Move assignment from an rvalue REFERENCE that only exchanges the two owners parks the object held so far in the
+    source.  When the source is a member of that very object (`head = std::move(head->next)`) the object ends up owning
+    itself and is never destroyed.  The assignment has to end the old object's lifetime itself: through reset()/a free, or
+    through the destructor of a local that took the source over first."""
+    ctx.rule(rule, "move assignment from an rvalue reference releases the object held before the assignment before it returns (it does "
+             "not leave it parked in the source)", len(classes))
+    for cls in classes:
+        n_inst = 0
+        for rec in recs_of(unit, cls):
+            fns = cls_fns(unit, rec["qn"])
+            frees = {f.did for f in fns if free_calls(f) and f.kind != "dtor"}
+            for f in fns:
+                if f.name != "operator=" or not f.params():
+                    continue
+                p0 = f.params()[0]
+                if not p0["t"].rstrip().endswith("&&") or (p0.get("rt") or "") != cls:
+                    continue
+                n_inst += 1
+                rel = list(free_calls(f))
+                rel += [n for n in f.events() if n.is_call() and n.callee and n.callee.get("did") in frees and n.kind == "CXXMemberCallExpr"
+                        and path(n.child("obj")) == ("this",)]
+                rel += [n for n in f.events() if n.kind == "AutoDtor" and (n.get("rt") or n.get("t") or "").startswith(cls)]
+                rel += [n for n in f.all_nodes() if n.kind == "DeclStmt" and any((d.get("rt") or "") == cls for d in n.get("decls", []))]
+                ctx.inst(rule, f.sig, bool(rel), f.loc,
+                         "the previously held object is released here (%d release site(s) / local owner(s))" % len(rel) if rel else
+                         "the two owners are only exchanged: the object held before the assignment lives on inside the source, and is never "
+                         "destroyed when the source is a member of that object (head = std::move(head->next))", f)
+        if n_inst == 0:
+            raise AnalysisBroken("anchor vanished: move assignment of %s from an rvalue reference" % cls)
+
+
 def check_allocator_stable(ctx, unit, classes, rule="O.allocator-stable"):
     """A block goes back to the allocator it came from.  An owner keeps its allocator in a field; a member that assigns
     that field and afterwards, on the same path, releases something through it (directly, or by calling a member of
@@ -1616,6 +1678,48 @@ def check_forward_collapsed(ctx, unit, fns, rule="R.forward-collapsed"):
                  "%d collapsed lvalue-reference parameter(s), none moved from" % len(lv), f)
     if n_inst < 2:
         raise AnalysisBroken("anchor vanished: instantiations with a collapsed lvalue-reference parameter (found %d)" % n_inst)
+
+
+def check_move_through_reference_member(ctx, unit, fns, rule="R.move-through-reference-member"):
+    """A data member of lvalue-reference type designates an object that belongs to somebody else.  std::move applied to
+    such a member of a (moved-from) source -- `item(std::move(other.item))` with `item` of type `X &` -- moves out of the
+    referenced object (std::tuple / std::pair forward the member with its declared type instead)."""
+    ctx.rule(rule, "std::move is never applied to a data member whose declared type (in that instantiation) is an lvalue reference", 1)
+    recs = {r["qn"]: r for r in unit.records}
+    n_inst = 0
+    for f in fns:
+        refm = {}       # param decl id -> {field names of lvalue-reference type}
+        for p_ in f.params():
+            t = p_["t"].rstrip()
+            base = t[:-2].rstrip() if t.endswith("&&") else (t[:-1].rstrip() if t.endswith("&") else t)
+            if base.startswith("const "):
+                base = base[6:]
+            r = recs.get(base)
+            if r is None:
+                # the type may be spelled without its namespace (injected class name of a sibling instantiation)
+                cand = [x for x in unit.records if x["uq"] == (p_.get("rt") or "") and x["qn"].endswith(base)]
+                r = cand[0] if len(cand) == 1 else None
+            if r is None:
+                continue
+            fl = {x["n"] for x in r["fields"] if x["t"].rstrip().endswith("&") and not x["t"].rstrip().endswith("&&")}
+            if fl:
+                refm[p_["d"]] = fl
+        if not refm:
+            continue
+        n_inst += 1
+        bad = []
+        for n in f.events():
+            if n.kind == "CallExpr" and n.callee and n.callee["uq"] == "std::move" and n.args:
+                a = n.args[0].strip()
+                if a.kind == "MemberExpr" and a.get("mk") == "Field" and a.children:
+                    b = std_unwrap(a.children[0])
+                    if b.kind == "DeclRefExpr" and b.d.get("d") in refm and a.m in refm[b.d["d"]]:
+                        bad.append("std::move(%s) at %s: `%s` is declared as an lvalue reference here, the move empties the object it refers to" % (
+                            canon(a).split("#")[0] + "." + a.m if False else canon(a)[:60], n.loc, a.m))
+        ctx.inst(rule, f.sig[:160], not bad, f.loc, "; ".join(sorted(set(bad))[:2]) if bad else
+                 "source has reference member(s) %s, none is moved from" % sorted(set().union(*refm.values())), f)
+    if n_inst == 0:
+        raise AnalysisBroken("anchor vanished: a function whose parameter is a record with lvalue-reference members")
 
 
 # ---- O: growth must not invalidate the argument it is about to copy --------------------------------------------------
